@@ -1,20 +1,31 @@
-use palette::cam16::{Cam16Qch, Cam16Jch, Parameters, Surround};
-use palette::white_point::D65;
+use pv::colorkind::plausible;
+use pg::Kind;
+fn fam(k: &Kind) -> bool { matches!(k, Kind::Xyz(_) | Kind::Yxy(_) | Kind::Lab(_) | Kind::Lch(_) | Kind::Luv(_) | Kind::Lchuv(_) | Kind::Oklab | Kind::Oklch | Kind::Hsluv(_) | Kind::LmsVonKries(_) | Kind::LmsBradford(_)) }
 fn main() {
-    let mut p = Parameters::<palette::cam16::StaticWp<D65>, f64>::default_static_wp(318.31);
-    p.surround = Surround::Dark;
-    let b = p.bake();
-    for (q, c) in [(1e-7, 1e-7), (1e-7, 1e-8), (1e-7, 1e-9), (1e-7, 2e-8), (1e-7, 3e-8), (1e-7, 5e-8), (1e-6, 1e-6), (1e-3, 1e-3), (1.0, 1.0), (10.0, 10.0), (1e-7, 0.0)] {
-        let k = Cam16Qch { brightness: q, chroma: c, hue: 237.53.into() };
-        let x = k.into_xyz(b);
-        println!("Q {q:e} C {c:e} -> {:?}", (x.x, x.y, x.z));
+    let g = pgb::d65_f64();
+    let n = g.n();
+    let mut rows = vec![];
+    for a in 0..n {
+        let ka = g.nodes[a].kind;
+        if !fam(&ka) { continue; }
+        let vals = ka.lattice(true);
+        for b in 0..n {
+            if a == b { continue; }
+            let Some(f) = g.unc[a][b] else { continue };
+            let kb = g.nodes[b].kind;
+            if !fam(&kb) { continue; }
+            let mut worst = 0.0f64; let mut cnt = 0;
+            for v in &vals {
+                let x = ka.to_xyz(*v);
+                if !plausible(x) || !ka.can_represent(x, 1e-7) || !kb.can_represent(x, 1e-7) { continue; }
+                let Ok(r) = pv::catch(|| f(*v)) else { continue };
+                let y = kb.to_xyz(r);
+                let e = (0..3).map(|i| (x[i]-y[i]).abs()).fold(0.0, f64::max);
+                if e.is_finite() { worst = worst.max(e); cnt += 1; }
+            }
+            rows.push((worst, g.nodes[a].name, g.nodes[b].name, cnt));
+        }
     }
-    for h in [0.0, 90.0, 180.0, 237.53, 270.0] {
-        let k = Cam16Qch { brightness: 1e-7, chroma: 1e-7, hue: h.into() };
-        let x = k.into_xyz(b);
-        println!("h {h} -> {:?}", (x.x, x.y, x.z));
-        let k = Cam16Jch { lightness: 1e-17, chroma: 1e-7, hue: h.into() };
-        let x = k.into_xyz(b);
-        println!("  Jch h {h} -> {:?}", (x.x, x.y, x.z));
-    }
+    rows.sort_by(|x, y| x.0.partial_cmp(&y.0).unwrap());
+    for r in rows.iter() { println!("{:e} {} -> {} ({})", r.0, r.1, r.2, r.3); }
 }
